@@ -188,7 +188,7 @@ def main():
     # 3. cases
     rnd = random.Random(seed)
     known = load_known()
-    ctx = {'tier': tier, 'rnd': rnd, 'known': [k for k in known['findings'] if k['property'] == prop], 'prop': prop}
+    ctx = {'tier': tier, 'rnd': rnd, 'seed': seed if isinstance(seed, int) else 1, 'known': [k for k in known['findings'] if k['property'] == prop], 'prop': prop}
     if replay:
         r = json.load(open(replay))
         if r.get('demo'):
